@@ -5,7 +5,7 @@ running program computes is where the definition is at run time plus the addend)
 Tie T2 end to end (x86-64): generated assembly modules define data arrays, functions and TLS arrays whose contents
 are markers (symbol number, element index) and export one accessor per (symbol, element, relocation form) that
 returns the address it computes: .quad sym+A tables, lea sym+A(%rip), sym@GOTPCREL, .long sym+A-., movabs / mov $imm
-(non-PIC), calls through sym@PLT, function pointers from tables and GOT, @tpoff, @gottpoff, @tlsgd, @tlsld+@dtpoff;
+(non-PIC), calls through sym@PLT, function pointers from tables and GOT, @tpoff, @gottpoff, @tlsgd, @tlsdesc, @tlsld+@dtpoff;
 definitions in the same object, another object, an archive member, a shared library (imports, copy relocations), with
 default / hidden / protected visibility, weak undefined.  A C driver checks that every accessor's address holds the
 marker it must hold (or the function returns its id), that all forms agree, and that weak undefined is 0.  Built as
@@ -93,6 +93,8 @@ def module_source(mod, data, funcs, tls, accessors):
             s += [f" mov {sym}@gottpoff(%rip), %rax", " add %fs:0, %rax", f" add ${off}, %rax"]
         elif form == "tlsgd":
             s += [" push %rbx", f" .byte 0x66", f" lea {sym}@tlsgd(%rip), %rdi", " .value 0x6666", " rex64", " call __tls_get_addr@PLT", f" add ${off}, %rax", " pop %rbx"]
+        elif form == "tlsdesc":
+            s += [" push %rbx", f" lea {sym}@tlsdesc(%rip), %rax", f" call *{sym}@tlscall(%rax)", " add %fs:0, %rax", f" add ${off}, %rax", " pop %rbx"]
         elif form == "tlsld":
             s += [" push %rbx", f" lea {sym}@tlsld(%rip), %rdi", " call __tls_get_addr@PLT", f" lea {sym}@dtpoff+{off}(%rax), %rax", " pop %rbx"]
         elif form == "weak":
@@ -148,7 +150,7 @@ def plan(rng, data, funcs, tls, kind):
                 k += 1
     for t in tls:
         for mod in mods:
-            forms = ["gottpoff", "tlsgd"] + (["tpoff"] if kind in ("static", "static-pie", "pie") else []) + (["tlsld"] if t["home"] == mod else [])
+            forms = ["gottpoff", "tlsgd", "tlsdesc"] + (["tpoff"] if kind in ("static", "static-pie", "pie") else []) + (["tlsld"] if t["home"] == mod else [])
             for form in forms:
                 if rng.random() < 0.4:
                     continue
@@ -307,7 +309,7 @@ def run(chk, replay=None):
     chk.cov.update({
         "evaluations": stats["runs"], "distinct_nontrivial": stats["accessors"],
         "rule": "3-6 data arrays, 2-4 functions, 1-3 TLS arrays per program, defined in object a, object b or a library, default/hidden/protected; about half of all (symbol, module, form) "
-                "combinations get an accessor with a random element offset; forms: lea, @GOTPCREL, .quad table, .long sym-., movabs, mov $imm32, @PLT call, @tpoff, @gottpoff, @tlsgd, "
+                "combinations get an accessor with a random element offset; forms: lea, @GOTPCREL, .quad table, .long sym-., movabs, mov $imm32, @PLT call, @tpoff, @gottpoff, @tlsgd, @tlsdesc, "
                 "@tlsld+@dtpoff, weak undefined; kinds: static non-PIC, static-PIE, PIE + shared library of definitions, shared library of everything + PIE driver",
         "stats": stats,
     })
